@@ -437,6 +437,9 @@ class AdaptivePolicy:
             self.failures += 1
         old_rate = self._current_rate
         self._current_rate = max(self._min_rate, self._current_rate * self._decrease_factor)
+        # A lower rate means a smaller bucket (rate * window): tokens the new
+        # bucket cannot hold are dropped now, not at the next refill with elapsed > 0.
+        self._tokens = min(self._tokens, self._current_rate * self._window_size)
         if self._current_rate < old_rate:
             self.rate_decreases += 1
             self.rate_history.append(RateSnapshot(time=now, rate=self._current_rate, reason=reason))
